@@ -95,6 +95,9 @@ func RunCheck(self, prop, mode string) int {
 	res := &RunResult{Stats: newStats()}
 	var stepInfo []map[string]interface{}
 	for i, st := range steps {
+		if only := os.Getenv("VERIF_ONLY_STEP"); only != "" && only != strconv.Itoa(i) { // development only
+			continue
+		}
 		before := *res.Stats
 		ts := time.Now()
 		if err := RunStep(self, prop, i, mode, st, tmp, res); err != nil {
